@@ -2,10 +2,10 @@
 from . import common as C
 
 MANIFEST = dict(
-   technique="Lean 4 proof over the store model with caller-visible value graphs (reach / ser / deep copy / mutate) + correspondence: pointers through Parse and StrictParse with input digests, and Parse–mutate–Parse histories over nested defaults and prefaults for every schema type",
-   text="For the code after pending/C15-deep-clone-default.diff: c15_result_fresh (everything reachable from the value Parse(nil) returns was allocated by that call and looks like the default; nothing older is written; rests on copyOK: the deep copy is fresh and equal for every graph and depth), c15_mut_frame and c15_hist (any interleaving of Parse(nil) calls and in-place mutations of returned values leaves the schema's default graph, hence every later result, looking the same), c15_input_unchanged and c15_same_pointer (Parse through a caller's pointer without an overwrite leaves every location as it was and returns that pointer). Witness for the pinned code: today_nested_default_shared (cloneDefaultValue copies one level; the nested map is the schema's own).",
-   note="Value graphs are followed to depth 6 (the harness builds depth <= 4). Parse on non-nil input is modelled only for the pointer path (validatePointer); that containers build fresh results from the input is covered by the reparse correspondence, not by a theorem. StrictParse returning the caller's pointer is checked by the correspondence (patch included). Structs with unexported reference-typed fields inside a default stay shared (stated limit of the patch). Trusted: Lean kernel, axioms propext/Classical.choice/Quot.sound, the Go harness (reflective digests and mutator).",
-   design="DESIGN.md §3.4, §5 C15")
+   technique="Lean 4 proof over store models with caller-visible value graphs (cells for maps / slices / pointees, value-typed aggregate nodes for structs and arrays held by value; reach / ser / deep copy / rebuild / assign) + correspondence: a type-directed generator of Go value graphs drives (i) by-value inputs through Parse / ParseAny / StrictParse of generated schema trees with digests (contents + addresses, spare capacity included) of every cell of the input graph, (ii) typed default / prefault values through random Parse(nil) / deep-mutation histories over families of schemas sharing the value, (iii) pointers through Parse / StrictParse",
+   text="For the code as it is (deepCloneValue clones maps, slices, pointees and, field by field, structs and arrays): g_copyOK (the deep copy of any graph with value-typed aggregates, to any depth, consists of fresh cells only, looks exactly like the original and writes nothing that existed), g_result_fresh (Parse(nil): everything reachable from the returned default / prefault is fresh), g_assign_frame and g_hist (any interleaving of Parse(nil) calls on a family of schemas and stores of arbitrary contents into cells outside the schema-owned region leaves every default graph, hence every later result, looking the same), g_parse_mutate_parse (Parse(nil), change every scalar of every reachable cell at any nesting and add entries, Parse(nil): same look; no side conditions), g_input_unchanged (Parse of a by-value input graph builds its result in fresh cells for EVERY rewriting of entries — strip, key canonicalisation, coercion — so every cell of the input holds what it held), plus the round-1 theorems over plain node graphs (copyOK, c15_result_fresh, c15_mut_frame, c15_hist, c15_input_unchanged, c15_same_pointer). Witnesses: bulk_agg_copy_shared (copying struct / array elements by assignment leaves the cells they refer to shared), today_nested_default_shared (one-level copy).",
+   note="Graphs are followed to 16 nested levels (the harness builds at most 13). The model of by-value container parsing (`rebuild`) abstracts what each schema type does to entries into an arbitrary function rw; that the real containers only read the input is established per case by the digests, not by translation of the Go code. g_hist takes the caller's stores to be outside the schema-owned region (discharged for results by g_result_fresh; g_parse_mutate_parse has no such hypothesis). StrictParse returning the caller's pointer is checked by the correspondence. Struct fields that are unexported stay shared in a cloned default (limit of deepCloneValue, not reachable by a caller outside the package). Trusted: Lean kernel, axioms propext/Classical.choice/Quot.sound, the Go harness (reflective generator, digests, mutator, graph encoder).",
+   design="DESIGN.md §3.4, §5 C15; notes/C15.md")
 
 MODULES = ["Gozod.Proofs.C15", "Gozod.Proofs.C15Agg"]
 THEOREMS = [
@@ -15,6 +15,7 @@ THEOREMS = [
     # graphs with value-typed aggregates (structs / arrays held by value inside containers)
     "Gozod.C15.g_copyOK", "Gozod.C15.g_result_fresh", "Gozod.C15.g_assign_frame", "Gozod.C15.g_hist",
     "Gozod.C15.g_graph_frame", "Gozod.C15.rebuild_ext", "Gozod.C15.g_input_unchanged", "Gozod.C15.bulk_agg_copy_shared",
+    "Gozod.C15.mutateAll_ext", "Gozod.C15.g_parse_mutate_parse",
 ]
 
 
@@ -27,6 +28,9 @@ def key(op, impl, M, S):
     if t[1] == "ptr":
         u, same = (impl.split(" ") + ["?"])[:2]
         what = "input-written" if u == "W" else "different-pointer"
+        if u == "W" and "how=pointee-replaced" in cm:
+            # the pointee slot was re-pointed to the newly built result (`*ptr = v`); the caller's container is intact
+            return "ptr:%s:pointee-replaced:%s" % (t[2], typ)
         return "ptr:%s:%s:%s:%s" % (t[2], what, typ, variant.split("/")[0])
     if t[1] == "dflt":
         return "%s-aliased:%s:depth%s" % (t[2], typ, t[3])
@@ -65,12 +69,18 @@ def run(res):
         C.tie_broken(res, "correspondence C15/parse-aliasing", err)
         return res.finish()
     C.decide(res, "C15", data, key, "C15/parse-aliasing", describe=describe)
-    res.coverage["rule"] = ("every base schema (every type) and its Optional/Nilable/Nullish/one-check/one-check+Optional variants × every accepted probe "
-        "value as a fresh pointer × {Parse, StrictParse}: digest of the input graph (contents+addresses) before/after, result pointer vs input pointer; "
-        "every base × {Default, Prefault} × 3 argument variants (flat, nested maps/slices/pointers to depth 4): Parse(nil) – mutate – Parse(nil) on the "
-        "schema and a derived one – mutate – Parse(nil); every base × accepted probe: Parse – mutate result – Parse(fresh copy). distinct = distinct op lines.")
+    res.coverage["rule"] = ("val: random schema trees (depth 1-4; Object strip/strict/loose/catchall/ptr, Record/LooseRecord/PartialRecord/RecordPtr × 14 key-schema kinds, "
+        "Slice[any|string|int|map|Rule], SlicePtr, Array, Tuple(+rest), Map/MapPtr, Set[any|string|int], Struct/StructPtr/FromStruct, Union, Xor, Intersection, "
+        "DiscriminatedUnion, Lazy, coercing / optional / nilable / defaulted / pointer leaves, Any/Unknown with random graphs) × generated by-value inputs (any-typed and typed "
+        "maps and slices, map[any]any, structs, pointers to scalars, non-canonical numeric keys, unknown keys, duplicates, spare capacity; accepted and rejected) × "
+        "{Parse, ParseAny, StrictParse}: digest of every cell of the input graph before/after; then Parse – deep mutation of the result – Parse of an identical input. "
+        "hist: every schema type (storex.Bases + 40 typed / shaped bases) × {Default, Prefault} × values generated from the parameter's Go type (typed composites to 13 nested levels): "
+        "P0 M0 P0 + 5-8 random steps over the family {schema, Describe, Meta, Optional, Nilable, RefineAny, NonOptional, second schema given the same value, re-defaulted schema}; "
+        "per later parse same/CHANGED, address disjointness of every result from the held value and from earlier results, digest of the held value, look of the first result vs the model. "
+        "ptr / dflt / reparse: the round-1 classes over storex.Probes(). distinct = distinct op bodies (graph shapes × histories).")
     res.assumptions += [
-        "the reflective mutator reaches everything a caller could reach through exported maps, slices, pointers and settable struct fields",
+        "the reflective mutator reaches everything a caller could reach through exported maps, slices (up to cap), pointers, arrays and struct fields; values reachable only through a non-addressable copy are reached through the references they hold",
         "user callbacks (DefaultFunc/PrefaultFunc results) are the caller's own data and are not required to be copied",
+        "results whose value depends on map iteration order (two input keys canonicalising to one) are left out of the reparse comparison (their inputs are still digested)",
     ]
     return res.finish()
